@@ -194,6 +194,15 @@ type walkDesc struct {
 	Order    string `json:"order"`
 	IDs      string `json:"ids_style"`
 	Filter   string `json:"filter,omitempty"`
+	Options  string `json:"options,omitempty"`
+}
+
+// cursorRule: a cursor that is refused and a cursor that is accepted but stands for another query are different failures.
+func cursorRule(dir string, err error) string {
+	if strings.Contains(err.Error(), "does not stand for the same query") {
+		return dir + "-cursor-stands-for-another-query"
+	}
+	return dir + "-cursor-rejected"
 }
 
 // checkWalk: forward until hasMore is false, then back through `previous`.
@@ -229,7 +238,7 @@ func checkWalk(rep *vc.Report, idx int, d walkDesc, expect []string, first func(
 		}
 		p, err = follow(p.next)
 		if err != nil {
-			viol("next-cursor-rejected", err.Error())
+			viol(cursorRule("next", err), err.Error())
 			return
 		}
 	}
@@ -246,7 +255,7 @@ func checkWalk(rep *vc.Report, idx int, d walkDesc, expect []string, first func(
 		}
 		q, err := follow(cur.prev)
 		if err != nil {
-			viol("previous-cursor-rejected", err.Error())
+			viol(cursorRule("previous", err), err.Error())
 			return
 		}
 		rep.Inc("previous_hops")
@@ -260,7 +269,7 @@ func checkWalk(rep *vc.Report, idx int, d walkDesc, expect []string, first func(
 	for k := len(pages) - 1; k >= 1; k-- {
 		q, err := follow(cur.prev)
 		if err != nil {
-			viol("previous-cursor-rejected", err.Error())
+			viol(cursorRule("previous", err), err.Error())
 			return
 		}
 		if strings.Join(q.ids, ",") != strings.Join(pages[k-1].ids, ",") {
@@ -275,7 +284,7 @@ func checkWalk(rep *vc.Report, idx int, d walkDesc, expect []string, first func(
 		if q.next != "" {
 			f, err := follow(q.next)
 			if err != nil {
-				viol("next-cursor-rejected", err.Error())
+				viol(cursorRule("next", err), err.Error())
 				return
 			}
 			if strings.Join(f.ids, ",") != strings.Join(pages[k].ids, ",") {
@@ -413,13 +422,20 @@ func spiceFilter(r *vc.Rand, ep listEndpoint, filter string) string {
 	return "metadata[k]=" + spice
 }
 
-func httpWalk(rep *vc.Report, idx int, ep listEndpoint, filter string, ids []*big.Int, pageSize int, style string) {
+// listOptions: the query options of the v2 transaction / account listings that change the statement (not the rows)
+var listOptions = []string{"", "", "expand=volumes", "expand=effectiveVolumes", "expand=volumes&expand=effectiveVolumes", "pit=2023-06-01T00:00:00Z", "pit=2023-06-01T00:00:00Z&expand=volumes", "pit=2023-06-01T00:00:00Z&expand=effectiveVolumes"}
+
+func httpWalk(rep *vc.Report, idx int, ep listEndpoint, filter string, ids []*big.Int, pageSize int, style string, opts string) {
 	rel := &relation{ids: ids, kind: ep.kind}
 	e := newEnv(rel.handler(), "l1")
-	d := walkDesc{Level: "http:" + ep.name, Size: len(ids), PageSize: pageSize, Order: map[bool]string{true: "DESC", false: "ASC"}[ep.desc], IDs: style, Filter: filter}
+	d := walkDesc{Level: "http:" + ep.name, Size: len(ids), PageSize: pageSize, Order: map[bool]string{true: "DESC", false: "ASC"}[ep.desc], IDs: style, Filter: filter, Options: opts}
 	if filter != "" {
 		d.Level += ":filtered"
 		rep.Inc("http_walks_with_filter")
+	}
+	if opts != "" {
+		d.Level += ":options"
+		rep.Inc("http_walks_with_expand_or_pit")
 	}
 	var firstBase string
 	fetch := func(target, body string) (*page, error) {
@@ -473,6 +489,9 @@ func httpWalk(rep *vc.Report, idx int, ep listEndpoint, filter string, ids []*bi
 		return p, nil
 	}
 	firstTarget := ep.path + "?pageSize=" + strconv.Itoa(pageSize)
+	if opts != "" {
+		firstTarget += "&" + strings.ReplaceAll(opts, ":", "%3A")
+	}
 	body := ""
 	if ep.v2 {
 		body = filter
@@ -552,7 +571,11 @@ func runC17(cfg *vc.Config, rep *vc.Report) {
 				f = spiceFilter(r, ep, f)
 				rep.Inc("http_walks_with_spiced_filter")
 			}
-			httpWalk(rep, i, ep, f, ids, ps, styleName)
+			opts := ""
+			if ep.v2 && ep.kind != "logs" {
+				opts = vc.Pick(r, listOptions)
+			}
+			httpWalk(rep, i, ep, f, ids, ps, styleName, opts)
 			rep.Inc("http_walks")
 		}
 	})
